@@ -13,7 +13,7 @@ CONSTANTS
   UpdMax = 2
   ResCons <- RCons4
   ResVers <- RVers2
-  ResTargets <- TgtAB
+  ResTargets <- TgtSAB
   ResSelf <- TgtAB
 ACTION_CONSTRAINT Emit
 CHECK_DEADLOCK FALSE
